@@ -134,6 +134,7 @@ inductive Err where
   | conv      -- duckdb.ConversionException (reaches the caller raw)
   | binder    -- duckdb.BinderException → ProgrammingError 2043
   | parser    -- duckdb.ParserException (raw)
+  | invalid   -- duckdb.InvalidInputException (raw): PARSE_JSON of text that is not JSON
 deriving DecidableEq, Repr
 
 inductive Val where
@@ -242,6 +243,7 @@ inductive E where
   | jxs (e : E) (p : PathLit)         -- exp.JSONExtractScalar  DuckDB `->>`
   | bracket (e : E) (i : BIdx)        -- exp.Bracket with one literal index
   | paren (e : E)
+  | parseJson (e : E)                 -- PARSE_JSON(<text expression>)  DuckDB `JSON(..)`
   | cast (e : E) (t : Ty)
   | upper (e : E)
   | lower (e : E)
@@ -268,6 +270,7 @@ def topDown (r : E → Option E) (e : E) : E :=
     | .jxs x p => .jxs (topDown r x) p
     | .bracket x i => .bracket (topDown r x) i
     | .paren x => .paren (topDown r x)
+    | .parseJson x => .parseJson (topDown r x)
     | .cast x t => .cast (topDown r x) t
     | .upper x => .upper (topDown r x)
     | .lower x => .lower (topDown r x)
@@ -300,6 +303,7 @@ def castAsVarchar : E → E
   | .jxs x p => .jxs (castAsVarchar x) p
   | .bracket x i => .bracket (castAsVarchar x) i
   | .paren x => .paren (castAsVarchar x)
+  | .parseJson x => .parseJson (castAsVarchar x)
   | .upper x => .upper (castAsVarchar x)
   | .lower x => .lower (castAsVarchar x)
   | .trim x => .trim (castAsVarchar x)
@@ -321,6 +325,7 @@ def casedAsVarchar : E → E
   | .jxs x p => .jxs (casedAsVarchar x) p
   | .bracket x i => .bracket (casedAsVarchar x) i
   | .paren x => .paren (casedAsVarchar x)
+  | .parseJson x => .parseJson (casedAsVarchar x)
   | .cast x t => .cast (casedAsVarchar x) t
   | .trim x => .trim (casedAsVarchar x)
   | .arraySize x => .arraySize (casedAsVarchar x)
@@ -534,8 +539,26 @@ def isWord (s : List Char) : Bool :=
 
 def duckJsonText (_ : Json) (s : List Char) : Val := if isWord s then .err .conv else .unsup
 
-def evalDuck (doc : Json) : E → Val
-  | .col => .json doc
+/-- what an expression is evaluated against: the document of the VARIANT operand, and the JSON text parser
+    (DuckDB's `JSON(text)` / Python's `json.loads`) as an abstract function: `none` = text the environment does not
+    know (outside the model), `some none` = not JSON, `some (some j)` = parses to `j` -/
+structure Env where
+  doc : Json
+  pj : List Char → Option (Option Json) := fun _ => none
+
+/-- PARSE_JSON of a text value -/
+def parseVal (pj : List Char → Option (Option Json)) : Val → Val
+  | .text s =>
+    match pj s with
+    | some (some j) => .json j
+    | some none => .err .invalid
+    | none => .unsup
+  | .null => .null
+  | .err e => .err e
+  | _ => .unsup
+
+def evalDuck (doc : Env) : E → Val
+  | .col => .json doc.doc
   | .lit l => evalLit l
   | .jx x p => arrow (evalDuck doc x) p
   | .jxs x p => arrow2 (evalDuck doc x) p
@@ -546,6 +569,7 @@ def evalDuck (doc : Json) : E → Val
     | .num ds => arrow (evalDuck doc x) (.path [.idx (digitsVal ds)])
     | .str _ => match evalDuck doc x with | .json _ => .err .binder | .null => .err .binder | w => w
   | .paren x => evalDuck doc x
+  | .parseJson x => parseVal doc.pj (evalDuck doc x)
   | .cast x t => duckCast t (evalDuck doc x)
   | .upper x => mapText (TFun.app .upper) (duckText (evalDuck doc x))
   | .lower x => mapText (TFun.app .lower) (duckText (evalDuck doc x))
@@ -607,6 +631,7 @@ def PrecOKg (src : Bool) : E → Bool
   | .jxs x _ => PrecOKg src x && decide ((if src then precPrimary else precGeneric) ≤ x.level src x.isJx)
   | .bracket x _ => PrecOKg src x && decide (precPrimary ≤ x.level src (x.isJx || x.isJxs))
   | .paren x => PrecOKg src x
+  | .parseJson x => PrecOKg src x
   | .cast x _ => PrecOKg src x
   | .upper x => PrecOKg src x
   | .lower x => PrecOKg src x
